@@ -69,6 +69,23 @@ func (d *Decoder) ReadPointerFlag() (byte, error) {
 	return firstByte, nil
 }
 
+// ReadOptionFlag reads the discriminator of an optional value, which is 0
+// (absent) or 1 (present). Every other value is rejected: it is not the
+// encoding of anything.
+func (d *Decoder) ReadOptionFlag() (bool, error) {
+	flag, err := d.buf.ReadByte()
+	if err != nil {
+		return false, err
+	}
+	switch flag {
+	case 0:
+		return false, nil
+	case 1:
+		return true, nil
+	}
+	return false, fmt.Errorf("invalid option discriminator %d", flag)
+}
+
 func (d *Decoder) ReadLegnthFlag() (byte, error) {
 	cLog(Cyan, "Reading length flag")
 	firstByte, err := d.buf.ReadByte()
